@@ -4,6 +4,7 @@ import (
 	"fmt"
 	"math/rand"
 	"os"
+	"strings"
 
 	txfile "github.com/elastic/go-txfile"
 
@@ -343,6 +344,34 @@ func init() {
 			c14Case(rep, cfg, prior, re, further, hseed)
 			if i < 2 {
 				rep.sample(map[string]interface{}{"config": cfg.String(), "resize": re.String(), "prior_ops": len(prior), "further_ops": len(further)})
+			}
+		}
+		// I/O failures while Open lowers the maximum size (the transaction that releases the pages behind the new limit
+		// "is allowed to fail"): whatever Open returns, the File it returns must be usable - the allocator of the process
+		// is exactly what a fresh Open of the same bytes builds, allocations hand out real pages, later commits
+		// succeed (seeded change C14k: the release step edits the live free list in place and fails afterwards).
+		// Failures that are I/O containment issues in general (known findings of C08) are not reported here.
+		for kind := 0; kind <= 1; kind++ {
+			for pos := 0; pos <= 7; pos++ {
+				for _, burst := range []int{1, 1000} {
+					cfg, ops := shrinkOpenUnderFaults(kind, pos, burst)
+					e, hang := c08Run(cfg, ops, false)
+					rep.Evaluations++
+					rep.count("scenario:faults-while-open-lowers-the-maximum-size", 1)
+					if hang != "" || e == nil {
+						continue
+					}
+					for _, msg := range e.Failures {
+						sg := failSig(msg)
+						if strings.HasPrefix(sg, "failed-commit-attempt-visible-but-incomplete") || strings.HasPrefix(sg, "mapping-lost-after-failed-remap") {
+							continue
+						}
+						rep.violate(Violation{Kind: "oracle", Sig: "shrink-open-under-faults/" + sg,
+							Detail: fmt.Sprintf("%s on %s; history: %s", msg, cfg, opKinds(ops)),
+							Replay: histReplay{Config: cfg, Ops: ops, Failures: e.Failures, Seed: int64(3000 + kind*100 + pos*10 + burst%7), Mode: "c08"}})
+						break
+					}
+				}
 			}
 		}
 		rep.ModelCalls = c14Model.N
